@@ -250,6 +250,14 @@ func C05(c *core.Ctx) {
 		})
 	}
 
+	// ... and one UP4 shard in which the switch refuses a write of half of the Session Deletion Requests: a refused deletion
+	// leaves the session as it was (record, address, TEIDs, gauge), and the repeated deletion ends it
+	specs = append(specs, func(i int) (string, interface{}) {
+		dir, trace := shardDir(c, i)
+		return "e2e-up4", Up4Params{Dir: dir, Trace: trace, AgentBin: filepath.Join(c.BinDir, "verif-agent"), N4Addr: n4For(i),
+			Seed: c.Seed*1000 + 99, Scenarios: scen, Steps: steps, AddFlows: true, Snap: true, FaultDel: true}
+	})
+
 	res := runE2EMixed(c, len(specs), "TraceE2E_C05.cfg", func(i int) (string, interface{}) { return specs[i](i) })
 	judgeE2E(c, res, map[string]bool{"InEnvelope": true})
 }
